@@ -68,11 +68,26 @@ type periodic struct {
 	mu     sync.Mutex
 	period []byte
 	pos    int
+	limit  int // > 0: the stream ends (io.EOF) after limit bytes
+	served int
 }
 
 func (p *periodic) Read(b []byte) (int, error) {
 	p.mu.Lock()
 	defer p.mu.Unlock()
+	if p.limit > 0 || p.limit == -1 {
+		rem := p.limit - p.served
+		if p.limit == -1 {
+			rem = 0
+		}
+		if rem <= 0 {
+			return 0, io.EOF
+		}
+		if len(b) > rem {
+			b = b[:rem]
+		}
+		p.served += len(b)
+	}
 	for i := range b {
 		b[i] = p.period[p.pos]
 		p.pos++
@@ -220,6 +235,43 @@ func Run(ctx *common.Ctx) int {
 			smu.Unlock()
 		}
 	})
+	// the same streams when they END early (a stuck device that also stops delivering): still rejected - never a
+	// judgement on the few samples, or on no sample at all, that were read before the end
+	var truncEvals int64
+	type trunc struct {
+		si, fi, limit int
+	}
+	var truncs []trunc
+	sizes := map[string][2]int{"Factory": {125000, 50}, "PowerOn": {125000, 20}, "Period": {2500, 20}}
+	for _, si := range []int{0, 1, len(consts), len(consts) + len(periods) - 1} {
+		if si >= len(streams) {
+			continue
+		}
+		for fi, fn := range fns {
+			ns := sizes[strings.TrimSuffix(strings.TrimSuffix(fn.name, "Fast"), "Detect")]
+			for _, l := range []int{-1, 1, ns[0] / 2, ns[0] * 4 / 5, ns[0] - 1, ns[0], ns[0] + 1, 3 * ns[0], ns[0]*ns[1] - 1} {
+				truncs = append(truncs, trunc{si, fi, l})
+			}
+		}
+	}
+	common.ParFor(len(truncs), func(i int) {
+		c := truncs[i]
+		st, fn := streams[c.si], fns[c.fi]
+		var v bool
+		var err error
+		pv := common.Catch(func() { v, err = fn.f(&periodic{period: st.period, limit: c.limit}) })
+		atomic.AddInt64(&truncEvals, 1)
+		if pv != nil || v || err == nil {
+			n := c.limit
+			if n < 0 {
+				n = 0
+			}
+			ctx.Report(fmt.Sprintf("%s/%s/ends-early", fn.name, st.name), fmt.Sprintf("%s returned (%v, %v) on the stream '%s' that ends after %d bytes (panic=%v)", fn.name, v, err, st.name, n, pv),
+				map[string]interface{}{"workflow": fn.name, "stream": st.name, "ends_after_bytes": n})
+		}
+	})
+	evals += truncEvals
+	samples = append(samples, map[string]interface{}{"part": "periodic streams that end early", "runs": truncEvals, "lengths": "0, 1, N/2, 4N/5, N-1, N, N+1, 3N, sN-1 bytes (N = sample size)"})
 	seam.Restore()
 	// single-shot detection on all-zero and all-one sources, every admissible length
 	var lens []int
@@ -303,7 +355,7 @@ func Run(ctx *common.Ctx) int {
 		"evaluations":         int(evals),
 		"distinct_nontrivial": len(streams) + 2,
 		"rule": "every listed periodic byte stream (constant bytes: 16 in quick, all 256 in thorough; periods 2..64 (quick 2,3,64) x {counter, bit-balanced, fixed filler}; a lone 0x01 in zeros at every position for p in {2,63,64}) x the six multi-sample workflows with the REAL registry runners (memoised per (item, sample hash): a periodic stream has at most p/gcd(p,n) distinct samples); " +
-			"a rejected stream judged while a second goroutine judges a healthy stream with the same detection (seq|fast x seq|fast, stub runners, every interleaving with <= 1 deviation under four default policies); " +
+			"four of the streams ending after 0, 1, N/2, 4N/5, N-1, N, N+1, 3N, sN-1 bytes through all six workflows; a rejected stream judged while a second goroutine judges a healthy stream with the same detection (seq|fast x seq|fast, stub runners, every interleaving with <= 1 deviation under four default policies); " +
 			"all-zero / all-one sources x every single-shot length; oracle: verdict false with a non-nil error, no panic; distinct = number of distinct streams",
 		"samples":                  samples,
 		"streams":                  len(streams),
